@@ -411,3 +411,24 @@ package proto
 //@   ensures r == (v >= f)
 //@ contract (f Feature) Version() (r) props(C13,C17)
 //@   ensures r == f
+
+//@ -- appendsOnly(b): b.Buf grew (by some amount) and the old content is untouched
+//@ spec func appendsOnly(b Val) Bool = len(b.Buf) >= old(len(b.Buf)) && forall k in 0..old(len(b.Buf)) :: b.Buf[k] == old(b.Buf[k])
+//@ contract (c ClientHello) Encode(b) props(C13,C17)
+//@   requires b != nil
+//@   modifies b.Buf
+//@   ensures appendsOnly(b) {append-only}
+//@ contract (b *Buffer) PutString(s) props(C01,C17)
+//@   requires b != nil
+//@   modifies b.Buf
+//@   ensures appendOnly(b, uvsize(len(s)) + len(s)) {append-only}
+//@   ensures forall j in 0..uvsize(len(s)) :: b.Buf[old(len(b.Buf)) + j] == uvbyte(len(s), j) {length-prefix}
+//@   ensures forall j in 0..len(s) :: b.Buf[old(len(b.Buf)) + uvsize(len(s)) + j] == s[j] {bytes}
+//@ contract (b *Buffer) PutInt(x) props(C01,C17)
+//@   requires b != nil
+//@   modifies b.Buf
+//@   ensures appendOnly(b, uvsize(u64(x))) && forall j in 0..uvsize(u64(x)) :: b.Buf[old(len(b.Buf)) + j] == uvbyte(u64(x), j)
+//@ contract (b *Buffer) PutLen(x) props(C01,C17)
+//@   requires b != nil
+//@   modifies b.Buf
+//@   ensures appendOnly(b, uvsize(u64(x))) && forall j in 0..uvsize(u64(x)) :: b.Buf[old(len(b.Buf)) + j] == uvbyte(u64(x), j)
